@@ -53,6 +53,18 @@ pub struct FamilyInfo {
 }
 
 pub const MAX_VIOLATIONS_PER_SIGNATURE: usize = 3;
+
+/// Process-wide count of violations recorded so far. Once it exceeds `FLOOD_LIMIT` the enumerating
+/// families stop early: the verdict (violation) is settled, and a broken tree must not turn a quick check
+/// into an hour-long one. The evidence then says that the enumeration was cut short.
+pub static VIOLATIONS_SEEN: std::sync::atomic::AtomicU64 = std::sync::atomic::AtomicU64::new(0);
+pub const FLOOD_LIMIT: u64 = 20_000;
+/// Signatures listed as known findings do not count towards the flood limit (they are expected on the
+/// unchanged tree and must not shorten the exploration).
+pub static KNOWN_SIGNATURES: std::sync::OnceLock<Vec<String>> = std::sync::OnceLock::new();
+pub fn flooded() -> bool {
+    VIOLATIONS_SEEN.load(std::sync::atomic::Ordering::Relaxed) > FLOOD_LIMIT
+}
 pub const MAX_SAMPLES: usize = 24;
 
 #[derive(Clone, Debug, Default)]
@@ -150,6 +162,9 @@ impl Report {
         }
     }
     pub fn violation(&mut self, v: Violation) {
+        if !KNOWN_SIGNATURES.get().map(|k| k.iter().any(|s| *s == v.signature)).unwrap_or(false) {
+            VIOLATIONS_SEEN.fetch_add(1, std::sync::atomic::Ordering::Relaxed);
+        }
         self.violation_count += 1;
         let c = self.sig_counts.entry(v.signature.clone()).or_insert(0);
         *c += 1;
